@@ -163,5 +163,5 @@ class BaseDB(object):
             usernames = list(self.db.keys())
         finally:
             self.lock.release()
-        usernames = [u for u in usernames if not u.startswith("--Reserved--")]
+        usernames = [u for u in usernames if not self._is_reserved(u)]
         return usernames
